@@ -315,6 +315,20 @@ def handler (prop : String) (wrong : Bool) : Handler DState where
               let mo := if st.wrong then
                   (match mo with | .drained t ns => Out.drained t ns.reverse | x => x) else mo
               let ms := showOut mo
+              -- a check on the router's own bookkeeping (the model's, which is the implementation's
+              -- while they agree): only a sweep by a member (consume) hands entries of a shared
+              -- group out; any other op that moves a group's cursor FORWARD skips entries that
+              -- no member has been given
+              let skipped : Option (String × String) :=
+                match o with
+                | .consume => none
+                | _ => s'.shared.findSome? (fun (name, g') =>
+                    match alookup name s.shared with
+                    | some g => if g'.cursor.2 > g.cursor.2 && Monitors.relevant st.prop "c17-group-cursor-skipped" then
+                        some ("c17-group-cursor-skipped", s!"group {name}: cursor moved from {g.cursor} to {g'.cursor} by an op that forwards nothing: the entries in between were never handed to a member through the group (a member left whose other subscription on the same path had an unacknowledged forward further on: the window entry records the log, not the subscription)")
+                      else none
+                    | none => none)
+              let mv := if mv.isSome then mv else skipped
               let mark (v : Option (String × String)) : Verdict := match v with
                 | some (t, d) => .monitorFail t (if st.diverged then d ++ " [found after the model/implementation divergence reported earlier in this case]" else d)
                 | none => .ok
